@@ -539,10 +539,13 @@ func TestC07Container(t *testing.T) {
 				perm, content = 0o755, []byte("\x7fELF\x02")
 			}
 			if c.Target == "directory" {
-				res, err := env.Open([]container.OpenCmd{{Path: "/w/bad-exe/x", Flag: flag, Perm: 0o644, MkdirAll: true}})
-				if err == nil && res[0].File != nil {
-					res[0].File.Close()
+				res, err := env.Open([]container.OpenCmd{{Path: "/w/bad-dir/x", Flag: flag, Perm: 0o644, MkdirAll: true}})
+				if err != nil || res[0].Err != nil {
+					rp.finish()
+					return vh.Infraf("prepare bad dir: %v %v", err, res)
 				}
+				res[0].File.Close()
+				p.Args[0] = "/w/bad-dir"
 			} else {
 				env.Delete("/w/bad-exe")
 				res, err := env.Open([]container.OpenCmd{{Path: "/w/bad-exe", Flag: flag, Perm: perm}})
@@ -552,8 +555,8 @@ func TestC07Container(t *testing.T) {
 				}
 				res[0].File.Write(content)
 				res[0].File.Close()
+				p.Args[0] = "/w/bad-exe"
 			}
-			p.Args[0] = "/w/bad-exe"
 		}
 		var cbRan bool
 		var cbProblem string
